@@ -855,7 +855,11 @@ impl<VM: VMBinding> CommonPlan<VM> {
             } else if #[cfg(feature = "marksweep_as_nonmoving")] {
                 self.nonmoving.prepare(_full_heap);
             } else {
-                self.nonmoving.release(_full_heap, UnlogBitsOperation::NoOp);
+                // A nursery GC of a generational plan does not trace (mark) objects in the
+                // non-moving space, so it must not sweep that space either.
+                if _full_heap {
+                    self.nonmoving.release(_full_heap, UnlogBitsOperation::NoOp);
+                }
             }
         }
     }
